@@ -214,7 +214,7 @@ func runCheck(cfg *config, spec *engineSpec) int {
 			die2("failure of run %d (seed %d), %s, did not reproduce on replay", f.Run, f.Seed, k)
 		}
 		name := fmt.Sprintf("%s-%s-s%d-r%d.json", spec.property, sanitize(rf.Violation.Invariant+"-"+rf.Violation.Signature), f.Seed, f.Run)
-		path := filepath.Join(cfg.verifDir, "replays", name)
+		path := filepath.Join(cfg.outDir, "replays", name)
 		if err := writeJSON(path, rf); err != nil {
 			die2("write replay: %v", err)
 		}
@@ -229,7 +229,7 @@ func runCheck(cfg *config, spec *engineSpec) int {
 	}
 
 	ev := rc.evidence(t0, searchS, sc, violations, knownHit)
-	if err := writeJSON(filepath.Join(cfg.verifDir, "evidence", spec.property+".json"), ev); err != nil {
+	if err := writeJSON(filepath.Join(cfg.outDir, "evidence", spec.property+".json"), ev); err != nil {
 		die2("write evidence: %v", err)
 	}
 	if rc.runs == 0 {
